@@ -106,13 +106,13 @@ def dominates(b, a_bb, b_bb):
     return a_bb in b.dominators().get(b_bb, set())
 
 
-def rule_pipeline(ctx, rep):
-    r = rep.rule("R-C06-pipeline", "all libraries are concatenated before any transform; the first transform is the topological sort; "
+def rule_pipeline(ctx, rep, rid="R-C06-pipeline"):
+    r = rep.rule(rid, "all libraries are concatenated before any transform; the first transform is the topological sort; "
                                    "global tables are complete (full walk / collection loop) before resolution or checking starts", floor=5, floor_what="ordering obligations")
     A = "ironplc_analyzer::"
     rt = ctx.prog.get(A + "stages::resolve_types")
     if not rt:
-        rep.error("R-C06-pipeline", "resolve_types not found")
+        rep.error(rid, "resolve_types not found")
         return
     b = rt[0]
     # (1) the xform table: ordered function constants of the vec![] literal
@@ -152,7 +152,7 @@ def rule_pipeline(ctx, rep):
     for fn, first, second, what in obligations:
         bs = ctx.prog.get(fn)
         if not bs:
-            rep.error("R-C06-pipeline", fn + " not found")
+            rep.error(rid, fn + " not found")
             continue
         bb = bs[0]
         fs = [c for c in bb.calls() if (c.callee or "").endswith(first) or (c.u or "").endswith(first)]
@@ -167,7 +167,7 @@ def rule_pipeline(ctx, rep):
     for fn in (A + "rule_function_block_invocation::apply", A + "rule_use_declared_enumerated_value::apply"):
         bs = ctx.prog.get(fn)
         if not bs:
-            rep.error("R-C06-pipeline", fn + " not found")
+            rep.error(rid, fn + " not found")
             continue
         bb = bs[0]
         ins = [c for c in bb.calls() if (c.callee or "").endswith(("HashMap::insert", "BTreeMap::insert"))]
